@@ -38,4 +38,10 @@
 //	m := wirebridge.Clone(reflect.ValueOf(ptr)).Interface()
 //	leaf, _ := wirebridge.MutateLeaf(s, name, m, i, r)             // changes leaf i of m and nothing else
 //	wirebridge.LeafByPath(leaves, "SiafundInputs[0].ClaimAddress")
+//
+// Hidden members: an unexported struct member that no schema line names (SchemaUnexported lists the named ones) is
+// outside the protocol - a cache, a memo, a lock an implementation keeps beside the content. Walks do not fail on it:
+// it is not transmitted, is no part of an abstract value and no leaf; Gen leaves it zero; Clone copies it as Go's
+// assignment does; Fresh(ptr) is the deep copy of the content alone (a value nothing was computed from yet);
+// HiddenMembers() lists the ones met (coverage).
 package wirebridge
